@@ -324,23 +324,23 @@ func writeEvidence(tier string, seed uint64, start time.Time, st *Stats, b *comm
 		samples = []interface{}{"(none: the run stopped before any case completed)"}
 	}
 	cov := map[string]interface{}{
-		"evaluations":         runs,
-		"distinct_nontrivial": st.Pairs.Len(),
-		"rule": "programs = wire's own testdata corpus + seeded multi-package modules (many imports, values, anonymous imports, injectors; optionally packages in a dependency module that vendor layouts vendor); each program is generated once under a baseline (module mode, canonical location, cwd = module root, ./..., ascending iteration) and then under seeded configurations varying one or several of: iteration schedule of every map/typeutil.Map walk (desc, shuffles, single-site flips), checkout location (deep, spaces, non-ASCII, `vendor` segment, symlink), cwd + package pattern (., import path, absolute dir, one package alone, shuffled explicit lists), dependency layout (GOPATH, GOPATH+vendor, module+vendor), repeat, clock/pid/host, environment noise; evaluations = wire gen processes; distinct_nontrivial = distinct (program digest, non-baseline configuration) pairs executed and compared byte-for-byte with the baseline",
-		"samples":             samples,
-		"programs":            ran,
-		"programs_usable":     usable,
-		"programs_skipped":    skipped,
-		"runs_per_hour":       float64(usable) / wall * 3600,
-		"wire_processes_per_hour": float64(runs) / wall * 3600,
-		"simulated_time":      "none: wire has no timers; the simulated clock/pid/host are values the seams would return if wire read them",
+		"evaluations":                           runs,
+		"distinct_nontrivial":                   st.Pairs.Len(),
+		"rule":                                  "programs = wire's own testdata corpus + seeded multi-package modules (many imports, values, anonymous imports, injectors; optionally packages in a dependency module that vendor layouts vendor); each program is generated once under a baseline (module mode, canonical location, cwd = module root, ./..., ascending iteration) and then under seeded configurations varying one or several of: iteration schedule of every map/typeutil.Map walk (desc, shuffles, single-site flips), checkout location (deep, spaces, non-ASCII, `vendor` segment, symlink), cwd + package pattern (., import path, absolute dir, one package alone, shuffled explicit lists), dependency layout (GOPATH, GOPATH+vendor, module+vendor), repeat, clock/pid/host, environment noise; evaluations = wire gen processes; distinct_nontrivial = distinct (program digest, non-baseline configuration) pairs executed and compared byte-for-byte with the baseline",
+		"samples":                               samples,
+		"programs":                              ran,
+		"programs_usable":                       usable,
+		"programs_skipped":                      skipped,
+		"runs_per_hour":                         float64(usable) / wall * 3600,
+		"wire_processes_per_hour":               float64(runs) / wall * 3600,
+		"simulated_time":                        "none: wire has no timers; the simulated clock/pid/host are values the seams would return if wire read them",
 		"distinct_realised_iteration_schedules": st.Schedules.Len(),
 		"max_keys_seen_per_iteration_site":      st.SiteMax.Map(),
 		"configurations_by_kind":                st.Counts.Map(),
-		"fault_kinds_fired":   "none: C16 has no faults, only schedules and configurations",
-		"components":          common.Components("B"),
-		"seam_sites":          len(b.Sites),
-		"limits":              "orders derived from heap addresses without going through a map walk (e.g. sorting by %p) are outside the seam; only the repeat configurations could catch them, probabilistically",
+		"fault_kinds_fired":                     "none: C16 has no faults, only schedules and configurations",
+		"components":                            common.Components("B"),
+		"seam_sites":                            len(b.Sites),
+		"limits":                                "orders derived from heap addresses without going through a map walk (e.g. sorting by %p) are outside the seam; only the repeat configurations could catch them, probabilistically",
 	}
 	if note != "" {
 		cov["note"] = note
